@@ -68,8 +68,47 @@ func giantString(r *rng.R) string {
 		}
 		return sign + "0" + gen.Digits(r, 1) + strings.Repeat("0", n-1) + "E-" + fmt.Sprint(n-1)
 	default: // long fraction of zeros
+		if r.Bool() {
+			// ... whose written exponent compensates it exactly, nearly, or is ten
+			// or a hundred times too large (the value is then far out of range)
+			z := L/2 + r.Intn(L/2)
+			e := int64(z) + r.Range(-100003, 100003)
+			switch r.Intn(4) {
+			case 0:
+				e = e*10 + r.Range(0, 9)
+			case 1:
+				e = e*100 + r.Range(0, 99)
+			}
+			if e < 0 {
+				e = -e
+			}
+			return sign + "0." + strings.Repeat("0", z) + gen.Digits(r, int64(1+r.Intn(3))) + "E+" + fmt.Sprint(e)
+		}
 		return sign + "0." + strings.Repeat("0", L/2) + gen.Digits(r, 3) + "E+" + fmt.Sprint(L/2)
 	}
+}
+
+// giantFractionString: hundreds of thousands of fraction zeros whose written
+// exponent compensates them exactly, nearly, or is ten or a hundred times too
+// large (the value is then far out of range and must be rejected).
+func giantFractionString(r *rng.R) string {
+	z := 100000 + r.Intn(300000)
+	target := r.Range(-100003, 100003) // exponent of the value
+	e := int64(z) + 1 + target
+	switch r.Intn(4) {
+	case 0:
+		e = e*10 + r.Range(0, 9)
+	case 1:
+		e = e*100 + r.Range(0, 99)
+	}
+	if e < 0 {
+		e = -e
+	}
+	lead := ""
+	if r.Chance(1, 4) {
+		lead = "000"
+	}
+	return []string{"", "-", "+"}[r.Intn(3)] + "0." + strings.Repeat("0", z) + gen.Digits(r, 1) + "E+" + lead + fmt.Sprint(e)
 }
 
 func parseAcceptCase(t *mon.T) {
@@ -353,6 +392,11 @@ func runC14(r *mon.Run) {
 		parseAcceptString(t, giantString(t.Rng))
 		t.Count("parse/giant")
 	})
+	r.Parallel("parse-giant-fraction", r.N(80, 4000), func(t *mon.T) {
+		parseAcceptString(t, giantFractionString(t.Rng))
+		t.Count("parse-giant-fraction")
+	})
+	r.Require("parse-giant-fraction", 60)
 	r.Parallel("format", r.N(150000, 10000000), formatCase)
 	for _, cl := range []string{"parse/must-accept", "parse/must-reject", "parse/language-boundary", "string/zero-exception-zone", "string/adjusted-switch-zone",
 		"string/exponent-switch-zone", "format/e", "format/f", "format/G", "format/v", "format/s", "format/F"} {
